@@ -78,7 +78,10 @@ func NewUploadPackSession(db objects.Store, rs ref.Store, c *Client, advertised 
 		neg.havesPerRoundTrip = defaultHavesPerRoundTrip
 	}
 	for _, b := range advertised {
-		if !objects.CommitExist(db, b) {
+		// A commit that is only present shallowly (left behind without its
+		// table by an earlier fetch with a depth) is wanted too: a ref is about
+		// to be pointed at it.
+		if com, err := objects.GetCommit(db, b); err != nil || !objects.TableExist(db, com.Table) {
 			neg.wants = append(neg.wants, b)
 		}
 	}
